@@ -575,7 +575,7 @@ def build(read):
     b.edits.append("D5: eval_stmts_with_scope_stack: `for stmt in stmts` -> Rust's own desugaring (into_iter/loop/match next)")
     loops = {1: dict(LOOP_STMTS)}
     loops[1]["body_start_after_first_stmt"] = True
-    f = extract.annotate_fn(hdr + body, spec=SPEC_STMTS, attrs="#[verifier::loop_isolation(false)]\n#[verifier::allow_complex_invariants]", loops={1: {"before": LOOP_STMTS["before"], "header": LOOP_STMTS["header"]}})
+    f = extract.annotate_fn(hdr + body, spec=SPEC_STMTS, attrs="#[verifier::exec_allows_no_decreases_clause]\n#[verifier::loop_isolation(false)]\n#[verifier::allow_complex_invariants]", loops={1: {"before": LOOP_STMTS["before"], "header": LOOP_STMTS["header"]}})
     # ghost position update: right after the element has been taken
     f = extract.rewrite_once(f, "Some(__x) => __x, None => break };\n",
                              "Some(__x) => __x, None => break };\n proof { i = i + 1; }\n", "stmts loop: ghost index")
